@@ -49,7 +49,7 @@ def known_payload(rng, kind, malformed):
     if kind == "waveform":
         return rand_bytes(rng, rng.randrange(0, 26) if malformed else rng.choice([26, 26, 27, 40]))
     if kind == "geoKeys":
-        return rand_bytes(rng, rng.randrange(0, 8)) if malformed else struct.pack("<4H", 1, 1, 0, rng.randrange(0, 9)) + rand_bytes(rng, rng.choice([0, 8, 16, 24, 13]))
+        return rand_bytes(rng, rng.randrange(0, 8)) if malformed else struct.pack("<4H", rng.choice([1, 1, 2, 0]), rng.choice([1, 1, 0, 7]), rng.choice([0, 1, 1, 2, 65535]), rng.randrange(0, 9)) + rand_bytes(rng, rng.choice([0, 8, 16, 24, 13]))
     if kind == "geoDoubles":
         return rand_bytes(rng, 8 * rng.randrange(0, 4) + (rng.randrange(1, 8) if malformed else 0))
     if kind == "geoAscii":
@@ -206,6 +206,14 @@ def run(ck):
                     ck.fail(f"record {i} ({tname}): second serialisation differs from the first", inp)
                 if tname in ("ExtraBytesVlr", "GeoDoubleParamsVlr", "GeoAsciiParamsVlr") and b[3] != p:
                     ck.fail(f"record {i} ({tname}): payload bytes changed", inp)
+                if tname == "GeoKeyDirectoryVlr":
+                    nk = (len(p) - 8) // 8
+                    want = ("keys", p[:6] + struct.pack("<H", nk), tuple(p[8 + 8 * j:16 + 8 * j] for j in range(nk)))
+                    if content(o) != want:
+                        ck.fail(f"record {i}: GeoKey directory presented with header {content(o)[1].hex()} and {len(content(o)[2])} keys; the payload holds "
+                                f"header {want[1].hex()} (version, revisions, number of keys) and {nk} keys", dict(inp, finding_key="C08:content:geokeys"))
+                if tname == "WaveformPacketVlr" and content(o) != ("struct", p[:26]):
+                    ck.fail(f"record {i}: waveform packet descriptor presented as {content(o)[1].hex()}, the payload holds {p[:26].hex()}", inp)
                 if tname == "ClassificationLookupVlr":
                     exp = {}
                     try:
